@@ -418,20 +418,21 @@ def families(rep, tier):
         [[1, 1, 3, 3], None, []], dict(oracle_stride=11 if quick else 7, scalar_boxes=12, batch=160, sample=.5 if quick else 1)
     # ---- lines: all polylines of <= 3 vertices (thorough: + 4-vertex sample)
     lines = [None, []] + U.polylines(ev, 3)
-    if not quick:
-        extra = [U.flat([rng.choice(P) for _ in range(4)]) for _ in range(6000)]
-        lines += extra
     lbox = box_mix(rng, posL, degL, 24 if quick else 1377, rev_every=8 if quick else 1)
     yield 'line', lines, lbox, 'polylines<=3', [[1, 1, 5, 3], None, []], \
         dict(oracle_stride=37 if quick else 11, classify_stride=101, scalar_boxes=6 if quick else 12,
              batch=160, sample=1 / 3 if quick else 1, scalar_stride=2 if quick else 1)
+    if not quick:
+        extra = [U.flat([rng.choice(P) for _ in range(4)]) for _ in range(6000)]
+        yield 'line', extra, lbox, 'polylines-4', [[1, 1, 5, 3], None, []], \
+            dict(oracle_stride=11, classify_stride=101, scalar_boxes=6, batch=160, sample=.35, scalar_stride=2)
     # ---- rings: closed polylines a-b-c-a (incl. degenerate), RingArray
     tri = [U.flat([a, b, c, a]) for a in P for b in P for c in P]
     if quick:
         tri = rng.sample(tri, 384)
     rings = [None, []] + tri
     yield 'ring', rings, box_mix(rng, posL, degL, 60, rev_every=3), 'closed-triangles', [[1, 1, 5, 3, 1, 1], None], \
-        dict(oracle_stride=29, classify_stride=211, scalar_boxes=6, batch=160, sample=.5 if quick else 1)
+        dict(oracle_stride=29, classify_stride=211, scalar_boxes=6, batch=160, sample=.5)
     # ---- multilines: 1-3 lines of 1-2 vertices, with an empty line among them
     segs = U.polylines(ev, 2)
     ml = [None, [], [[0, 0, 6, 6]], [[0, 0, 6, 6], []], [[], [0, 6, 6, 0]]]
@@ -443,7 +444,7 @@ def families(rep, tier):
         ml.append(e)
     ml += [[U.flat([rng.choice(P) for _ in range(3)]) for _ in range(2)] for _ in range(300 if quick else 1000)]
     yield 'multiline', ml, box_mix(rng, posL[::2] if quick else posL, degL, 60, rev_every=3), 'multilines', [[[1, 1, 5, 3]], None, []], \
-        dict(oracle_stride=31, classify_stride=307, scalar_boxes=6, batch=160, sample=.5 if quick else 1)
+        dict(oracle_stride=31, classify_stride=307, scalar_boxes=6, batch=160, sample=.5)
 
     # ---- polygons on the 3x3 sub-grid {2,4,6}^2, boxes on 0..8
     R = U.simple_rings([2, 4, 6], (3, 4) if quick else (3, 4, 5))
@@ -485,8 +486,7 @@ def families(rep, tier):
             holed.append([U.close(shells[0]), U.close(a, cw=True), U.close(b, cw=True)])
     hb = box_mix(rng, posH, degH, 40, rev_every=5)
     yield 'polygon', [None, []] + holed, hb, 'shell+hole', [[[1, 1, 5, 1, 5, 5, 1, 1]], None, []], \
-        dict(oracle_stride=6 if quick else 2, classify_stride=97, scalar_boxes=8, batch=160,
-             sample=.5 if quick else 1)
+        dict(oracle_stride=6 if quick else 2, classify_stride=97, scalar_boxes=8, batch=160, sample=.5)
 
     # ---- multipolygons: 1 part, 2 parts (disjoint / touching / overlapping), part inside a hole
     mp = [None, [], [[U.close(R[0])], []]]
@@ -499,7 +499,7 @@ def families(rep, tier):
         mp.append([[U.close(a, cw=rng.random() < .5)], [U.close(b, cw=rng.random() < .5)]])
     yield 'multipolygon', mp, box_mix(rng, posP, degP, 40, rev_every=4), 'multipolygon-1-2-parts', \
         [[[[1, 1, 5, 1, 5, 5, 1, 1]]], None, []], dict(oracle_stride=8 if quick else 3, classify_stride=89,
-                                                      scalar_boxes=8, batch=160, sample=.5 if quick else 1)
+                                                      scalar_boxes=8, batch=160, sample=.5)
     # nested: big shell with a big hole, second part strictly inside the hole (grid 0..12)
     inner = U.simple_rings([4, 6, 8], (3, 4))
     if quick:
@@ -516,7 +516,8 @@ def families(rep, tier):
         posN = rng.sample(posN, 1500)
     yield 'multipolygon', nest, box_mix(rng, posN, U.boxes_degenerate(-1, 13), 20, rev_every=6), 'part-in-hole', \
         [[[[1, 1, 5, 1, 5, 5, 1, 1]]], None, []], dict(oracle_stride=2 if quick else 1, classify_stride=61,
-                                                      scalar_boxes=8, chunk=64)
+                                                      scalar_boxes=8, chunk=64, batch=160,
+                                                      sample=1 if quick else .5)
 
 
 def frac_boxes(rng, n, lo=-1, hi=9):
@@ -578,7 +579,7 @@ def frac_families(rep, tier):
     for kind, els in fams:
         yield kind, els, frac_boxes(rng, 160 if quick else 1500), 'fractional-boxes:' + kind, \
             [els[2], None], dict(batch=32, qscale=4, subtypes=subs, oracle_stride=4, scalar_boxes=8,
-                                 both_every=2)
+                                 both_every=2, sample=1 if quick else .5)
 
 
 CORPUS = [
@@ -616,7 +617,9 @@ def run(rep):
                 'near-tie configurations with coordinates up to 2^25 in float64/float32/int64/int32. A case is '
                 'non-trivial when some box separates the elements (some True and some False). '
                 'quick tier: every element of every family is run, against a seeded fraction (1/3 for polylines, '
-                '1/2 otherwise, times rep.scale) of its box batches; thorough tier: all batches. '
+                '1/2 otherwise, times rep.scale) of its box batches; thorough tier: all batches for points, '
+                'multipoints, polylines of <= 3 vertices and simple-ring polygons, a seeded 1/2 (1/3 for 4-vertex '
+                'polylines) of the batches of the larger families. '
                 'evaluations = Coq cases; element_box_pairs in coverage counts (element, box) pairs.')
     acc = Acc()
     t0 = time.time()
